@@ -12,6 +12,7 @@ PROP = {
         {"name": "strto_seq", "quick": 1500000, "thorough": 15000000, "maxlen": 200},
         {"name": "qsort", "quick": 400000, "thorough": 6000000, "maxlen": 200},
         {"name": "bsearch", "quick": 1000000, "thorough": 15000000, "maxlen": 160},
+        {"name": "qsort_diffcmp", "quick": 400000, "thorough": 5000000, "maxlen": 200},
         {"name": "qsort_large", "quick": 8000, "thorough": 150000, "maxlen": 40},
         {"name": "bsearch_large", "quick": 20000, "thorough": 300000, "maxlen": 40},
     ],
